@@ -160,6 +160,7 @@ type Obligation struct {
 	Inputs  []string // SMT constants whose model values describe the input
 	Note    string
 	LoopStart int    // lines before this index come from before the innermost enclosing loop header (quantified assumptions there are about pre-loop memory and are dropped)
+	Skip    map[int]bool // lines left out of the standalone query (staged invariants: assumptions made for later invariants)
 	caseSel int      // which case a standalone script asserts (-1: none)
 	Cases   []string // optional case split: the obligation holds iff it holds under each case (cases are exhaustive by construction)
 }
